@@ -286,3 +286,35 @@ Proof.
   intros locale fmt value out loc_eqb Hl make icu progs sched t k o.
   exact (cache_transparent locale cache_key fmt value out loc_eqb key_eqb Hl key_eqb_sound make icu progs sched t k o).
 Qed.
+
+(** * the data provider is process-wide: installed once, every thread's formatter is built from it *)
+From LI Require Import Runtime.FormatProvider.
+
+Theorem provider_global :
+  forall (provider locale opts fmt value out : Type)
+         (loc_eqb : locale -> locale -> bool) (opt_eqb : opts -> opts -> bool),
+    (forall a b, loc_eqb a b = true -> a = b) -> (forall a b, opt_eqb a b = true -> a = b) ->
+  forall (build : provider -> locale -> opts -> option fmt) (icu : fmt -> value -> out) (p : provider)
+         (progs : list (list (call locale opts value))) (sched : list nat) t k o,
+    In (t, k, o) (st_log _ _ _ _ _ (run_global provider locale opts fmt value out loc_eqb opt_eqb build icu (Some p) sched progs)) ->
+    o = icu_fmt_with provider locale opts fmt value out build icu p k.
+Proof.
+  intros provider locale opts fmt value out loc_eqb opt_eqb Hl Ho build icu p progs sched t k o H.
+  unfold run_global in H. unfold icu_fmt_with.
+  exact (cache_transparent locale opts fmt value out loc_eqb opt_eqb Hl Ho (make_of provider locale opts fmt build (Some p)) icu
+           progs sched t k o H).
+Qed.
+
+(** thread-local state refuted: thread 0 installs the provider, thread 1 formats a number - it panics although
+    the installed provider builds the formatter *)
+Definition w_build (p l o : nat) : option (nat * nat * nat) := Some (p, l, o).
+Definition w_icu3 (f : nat * nat * nat) (v : nat) := (f, v).
+Definition w_progs2 : list (list (call nat nat nat)) := [[(1, 7, 5)]; [(1, 7, 5)]].
+
+Lemma provider_thread_local_refuted :
+  tl_log _ _ _ _ _ (run_tl nat nat nat (nat * nat * nat) nat (nat * nat * nat * nat) Nat.eqb Nat.eqb w_build w_icu3 0 9 [0; 1] w_progs2)
+  = [(0, (1, 7, 5), Out _ ((9, 1, 7), 5)); (1, (1, 7, 5), Panicked _)]
+  /\ icu_fmt_with nat nat nat (nat * nat * nat) nat (nat * nat * nat * nat) w_build w_icu3 9 (1, 7, 5) = Out _ ((9, 1, 7), 5)
+  /\ st_log _ _ _ _ _ (run_global nat nat nat (nat * nat * nat) nat (nat * nat * nat * nat) Nat.eqb Nat.eqb w_build w_icu3 (Some 9) [0; 1] w_progs2)
+     = [(0, (1, 7, 5), Out _ ((9, 1, 7), 5)); (1, (1, 7, 5), Out _ ((9, 1, 7), 5))].
+Proof. vm_compute. repeat split; reflexivity. Qed.
